@@ -285,7 +285,10 @@ fn busy_timer_presets(ctx: &mut Ctx, first_id: u64, lim: u64) {
     }
 }
 
-/// RTSS'21 workloads (C05): self-consistent bound vectors of the rr / bw analyses
+/// RTSS'21 workloads (C05): self-consistent bound vectors of the rr / bw analyses.
+/// Known priorities are pairwise distinct (value = 4 * random + index): a priority *order* has no ties; with equal values the
+/// analyses treat neither callback as the higher one, which is optimistic for whichever the executor happens to serve second
+/// (observed with seed 2 of the thorough tier, see DESIGN.md 9.2).
 fn rtss21(ctx: &mut Ctx, id: u64, lim: u64, _tmax: u64, cmax: u64, pmax: u64) {
     let supply = gen_supply(&mut ctx.rng, pmax);
     let n = ctx.rng.gen_range(2..=3usize);
@@ -295,7 +298,7 @@ fn rtss21(ctx: &mut Ctx, id: u64, lim: u64, _tmax: u64, cmax: u64, pmax: u64) {
         let tmin = (n as u64 * cmax).saturating_sub(1).max(2);
         let a = gen_arr(&mut ctx.rng, tmin, tmin + 3);
         let c = ctx.rng.gen_range(1..=cmax);
-        wl.push(json!({"t": t, "p": ctx.rng.gen_range(0..=2) * 2 + (j as i64 % 2), "a": a, "c": {"k": "scalar", "c": c}, "C": c}));
+        wl.push(json!({"t": t, "p": ctx.rng.gen_range(0..=2) * 4 + j as i64, "a": a, "c": {"k": "scalar", "c": c}, "C": c}));
     }
     for (k, op) in ["ros2_rr", "ros2_bw"].iter().enumerate() {
         // iterate upwards from the WCETs
@@ -403,7 +406,7 @@ fn rrchain(ctx: &mut Ctx, id: u64, lim: u64, tmax: u64, cmax: u64, pmax: u64) {
         let t = if j > first { ["unknown", "polled"][ctx.rng.gen_range(0..2)] } else { kinds[ctx.rng.gen_range(0..3)] };
         let c = ctx.rng.gen_range(1..=cmax);
         let a = gen_arr(&mut ctx.rng, tmin, tmin + tmax.min(3));
-        wl.push(json!({"t": t, "p": ctx.rng.gen_range(0..=2) * 2 + (j as i64 % 2), "a": a, "c": {"k": "scalar", "c": c}, "C": c}));
+        wl.push(json!({"t": t, "p": ctx.rng.gen_range(0..=2) * 4 + j as i64, "a": a, "c": {"k": "scalar", "c": c}, "C": c}));
     }
     let a_s = wl[first]["a"].clone();
     // the round-robin analysis and the busy-window-aware analysis bound the same executor
